@@ -274,3 +274,70 @@ def run(ctx):
         if rr.nzero < 1:
             raise Broken("C03.R7: no success exit found in %s" % fin.name)
     r7.floor(2, "finish ops of framing transports")
+
+    # ------------------------------------------------------------------ R8
+    r8 = ctx.rule("C03.R8", "a lower-layer send that fails with anything but EAGAIN has made the connection terminal (the framing layer keeps the frame it had buffered)")
+    check_terminal_failures(P, r8, tables)
+
+
+def check_terminal_failures(P, rule, tables):
+    """tcp_send/tls_send buffer (and count) the message first and then try to write it.  A failure of that write other
+    than EAGAIN is reported as the send's failure while the frame stays in the buffer - harmless only because such a
+    failure means the byte stream below is dead (bad/closed) and nothing will ever be written again.  So: every path of
+    btcp_send/btls_send that returns -1 with errno possibly different from EAGAIN has the connection in a terminal state."""
+    EAGAIN = 11
+    for t in tables:
+        if t.proto not in ("btcp", "btls"):
+            continue
+        f = t.slots["send"]
+        rule.instance(f.qname)
+        bad = []
+        nfail = [0]
+
+        class Term(S.SeqRule):
+            max_depth = 4
+
+            def user0(s2, fn):
+                return False          # connection known terminal on this path
+
+            def inline(s2, fn, nid, callee):
+                return callee.static and callee.file == f.file and callee is not f
+
+            def on_branch(s2, fn, st, blk, cond, label):
+                if isinstance(label, tuple) and label[0] == "case" and fn.fields_of(cond)[-1:] == ("state",):
+                    return label[2] in ("conn_state_bad", "conn_state_closed")
+                if label in ("T", "F"):
+                    l, op, r = C.cond_atom(fn, cond, label == "T")
+                    if fn.fields_of(l)[-1:] == ("state",) and not isinstance(r, tuple):
+                        nm = enum_name(fn, r)
+                        if nm in ("conn_state_bad", "conn_state_closed") and op == "==":
+                            return True
+                        if nm == "conn_state_ready" and op == "!=":
+                            return st.user      # not ready: transitional or terminal - decided by errno below
+                return None
+
+            def on_store(s2, fn, st, nid, lhs, rhs, op):
+                if rhs is not None and fn.fields_of(lhs)[-1:] == ("state",):
+                    return enum_name(fn, rhs) in ("conn_state_bad", "conn_state_closed")
+                return None
+
+            def on_exit(s2, fn, st, ret_nid, ret_cls, top):
+                if not top or ret_cls != S.NEG:
+                    return
+                nfail[0] += 1
+                e = st.efact
+                if e and e[0] == "eq" and e[1] == EAGAIN:
+                    return
+                if not st.user and not bad:
+                    bad.append((ret_nid, e))
+        from .C06 import enum_name
+        S.run(Term(P), f)
+        if nfail[0] < 2:
+            raise Broken("terminal-failures: only %d failing exits explored in %s" % (nfail[0], f.name))
+        if bad:
+            e = bad[0][1]
+            rule.violation("%s:failure-on-live-connection" % f.name, "%s can fail with %s while the connection stays usable: the messaging layer above reports that send as "
+                           "failed although the frame is already buffered and counted - it is transmitted with the next call, and a retry duplicates it"
+                           % (f.name, "errno %s" % (e[1] if e and e[0] == "eq" else "other than EAGAIN")), loc=f.loc(bad[0][0]) if bad[0][0] else f.file)
+        else:
+            rule.ok("%s: every failure other than EAGAIN leaves the connection bad or closed" % f.qname, "path exploration with errno facts")
